@@ -116,8 +116,11 @@ def _write_sample(path, genes_haps, hole_genes, all_genes, ctg, rng, depth=DEPTH
     return path
 
 
-def build_sim_world(d, seed, variant):
-    """Write YAMLs + BAMs of a "sim" world under directory d (lower-case path!); returns the JSON-able spec."""
+def build_sim_world(d, seed, variant, genome="hg19"):
+    """Write YAMLs + BAMs of a "sim" world under directory d (lower-case path!); returns the JSON-able spec.
+    genome="hg38" (toy2 only: the toy databases place both builds at the same coordinates, on opposite strands): the
+    build is then given EXPLICITLY and differs from what the header of the small contig lets aldy detect (hg19)."""
+    assert genome == "hg19" or variant == "toy2"
     from . import gen_db, gen_reads
 
     aldyenv.setup()
@@ -131,14 +134,14 @@ def build_sim_world(d, seed, variant):
         ymls["A"] = ("genx.yml", gen_db.to_yaml(_gendb_between(rng, 10800, 19500, "GENX")))
         ymls["B"] = ("toys.yml", _toy("TOYS", rng.choice("+-"), rng.randrange(40), 5001, 8001))
     ymls["C"] = ("toyc.yml", _toy("TOYC", "+", rng.randrange(40), 21001, 23501))
-    spec = {"kind": "sim", "variant": variant, "seed": seed, "genome": "hg19", "genes": {}, "cn_region": list(CN_REGION)}
+    spec = {"kind": "sim", "variant": variant, "seed": seed, "genome": genome, "genes": {}, "cn_region": list(CN_REGION)}
     genes = {}
     for lab, (fn, txt) in ymls.items():
         p = os.path.join(d, fn)
         with open(p, "w") as f:
             f.write(txt)
-        genes[lab] = gen_reads.load_gene(p, "hg19")
-        spec["genes"][lab] = {"yml": p, "name": genes[lab].name, "genome": "hg19"}
+        genes[lab] = gen_reads.load_gene(p, genome)
+        spec["genes"][lab] = {"yml": p, "name": genes[lab].name, "genome": genome}
     # contig: random, then every gene's lookup sequence / mutated pseudogene copy overlaid in turn
     ctg = list(gen_reads.contig(genes["A"], CONTIG_LEN, rng))
     for lab in ("B", "C"):
